@@ -486,6 +486,8 @@ func Serve(types map[string]func() any, in io.Reader, outw io.Writer) {
 			d.enc(out, id, toks[2:])
 		case "DEC":
 			d.dec(out, id, toks[2:])
+		case "DECX":
+			d.decTwice(out, id, toks[2:])
 		case "PRE":
 			// one-shot: the next ENC finds these bytes already in the output buffer
 			d.pre = nil
@@ -556,6 +558,45 @@ func (d *driver) enc(out *bufio.Writer, id string, toks []string) {
 		}
 	}
 	fmt.Fprintf(out, "ENC %s %s\n", id, hex.EncodeToString(buf.Bytes()))
+}
+
+// decTwice: the same object decodes two messages one after the other; the answer describes the second decode.
+func (d *driver) decTwice(out *bufio.Writer, id string, toks []string) {
+	if len(toks) < 3 {
+		fmt.Fprintf(out, "ERR %s unsupported syntax DECX <packet> <hex> <hex>\n", id)
+		return
+	}
+	first, err1 := hex.DecodeString(toks[1])
+	second, err2 := hex.DecodeString(toks[2])
+	if err1 != nil || err2 != nil {
+		fmt.Fprintf(out, "ERR %s unsupported syntax bad hex\n", id)
+		return
+	}
+	obj, ok := d.lookup(toks[0])
+	if !ok {
+		fmt.Fprintf(out, "ERR %s unsupported notype %s\n", id, toks[0])
+		return
+	}
+	bc, ok := asCodec(obj)
+	if !ok {
+		fmt.Fprintf(out, "ERR %s unsupported nocodec %s\n", id, obj.Type())
+		return
+	}
+	if msg, _ := guarded(func() error { return bc.Decode(bytes.NewBuffer(first)) }); msg != "" {
+		fmt.Fprintf(out, "ERR %s unsupported first decode failed: %s\n", id, oneline(msg))
+		return
+	}
+	buf := bytes.NewBuffer(second)
+	if msg, _ := guarded(func() error { return bc.Decode(buf) }); msg != "" {
+		fmt.Fprintf(out, "ERR %s error %s\n", id, oneline(msg))
+		return
+	}
+	var sb strings.Builder
+	if msg, _ := guarded(func() error { dump(&sb, obj, 0); return nil }); msg != "" {
+		fmt.Fprintf(out, "ERR %s error dump: %s\n", id, oneline(msg))
+		return
+	}
+	fmt.Fprintf(out, "DEC %s %d %s\n", id, len(second)-buf.Len(), sb.String())
 }
 
 func asCodec(v reflect.Value) (codec.BinaryCodec, bool) {
